@@ -68,11 +68,17 @@ def detectWorldWritable (fixPerms : Bool) (c : CSet) : CSet :=
   let l := c.filter fun x => !x.isSym && (x.mode &&& 0o002 != 0)
   if fixPerms then update c (l.map fun x => { x with mode := clearBits x.mode 0o002 }) else c
 
+/-- `preinst_contents_reset.trigger` of the ebuild format (priority 1, registered for packages with a `pkg_preinst`
+phase): `cset.clear(); cset.update(scan of the image [with the offset inserted])` — whatever was in `new_cset` is
+replaced by a fresh scan `image` -/
+def resetContents (image : CSet) (_c : CSet) : CSet := update [] image
+
 inductive Trigger
   | fixUid (bad good : Nat)
   | fixGid (bad good : Nat)
   | fixSetBits
   | detectWorldWritable (fixPerms : Bool)
+  | reset (image : CSet)
   deriving DecidableEq, Repr
 
 def Trigger.run : Trigger → CSet → CSet
@@ -80,6 +86,11 @@ def Trigger.run : Trigger → CSet → CSet
   | .fixGid b g => Pkgcore.C23.fixGid b g
   | .fixSetBits => Pkgcore.C23.fixSetBits
   | .detectWorldWritable f => Pkgcore.C23.detectWorldWritable f
+  | .reset image => resetContents image
+
+def Trigger.isReset : Trigger → Bool
+  | .reset _ => true
+  | _ => false
 
 /-- `execute_hook("pre_merge")` restricted to the hardening triggers, in the order given -/
 def runTriggers (ts : List Trigger) (c : CSet) : CSet := ts.foldl (fun c t => t.run c) c
@@ -95,5 +106,15 @@ def triggerOfName (buildUid rootUid buildGid rootGid : Nat) : String → Option 
 /-- the hardening triggers of a default install engine, in the engine's own `pre_merge` order (generated) -/
 def defaultTriggers (buildUid rootUid buildGid rootGid : Nat) : List Trigger :=
   Generated.C23.preMergeOrder.filterMap (triggerOfName buildUid rootUid buildGid rootGid)
+
+/-- trigger class name → trigger, for an engine assembled the way the ebuild format does it (`image` = what
+`preinst_contents_reset` scans) -/
+def triggerOfNameE (buildUid rootUid buildGid rootGid : Nat) (image : CSet) (name : String) : Option Trigger :=
+  if name = "preinst_contents_reset" then some (.reset image) else triggerOfName buildUid rootUid buildGid rootGid name
+
+/-- the `pre_merge` triggers that touch `new_cset` in an ebuild-format install engine (default plugins + format
+triggers + domain triggers), in the engine's own order (generated from the real engine) -/
+def ebuildTriggers (buildUid rootUid buildGid rootGid : Nat) (image : CSet) : List Trigger :=
+  Generated.C23.ebuildPreMergeOrder.filterMap (triggerOfNameE buildUid rootUid buildGid rootGid image)
 
 end Pkgcore.C23
